@@ -84,7 +84,7 @@ def proc_ids(pid):
 
 class Server:
     def __init__(self, worker_class="sync", workers=1, threads=None, args=(), bind="tcp", pidfile=False,
-                 config=None, env=None, name="srv", daemon=False, tls=False):
+                 config=None, env=None, name="srv", daemon=False, tls=False, release=False):
         self.dir = tempfile.mkdtemp(prefix=name + "_", dir=_scratch())
         self.port = None
         self.sockpath = None
@@ -124,12 +124,39 @@ class Server:
         self.cmd += list(args) + ["vapp:app"]
         self.env = dict(os.environ)
         self.env.update({"PYTHONPATH": REPO, "PYTHONDONTWRITEBYTECODE": "1", "PYTHONUNBUFFERED": "1"})
+        self.cwd = REPO
+        self.release = 0
+        if release:
+            # a "current -> releases/N" deployment: the server is started from the symlinked directory (as a shell
+            # would after "cd current": $PWD names the symlink) and finds the application there
+            self.release = 1
+            self._mkrelease(1)
+            self.cwd = os.path.join(self.dir, "current")
+            os.symlink(os.path.join(self.dir, "releases", "1"), self.cwd)
+            k = self.cmd.index("--chdir")
+            del self.cmd[k:k + 2]
+            self.env["PWD"] = self.cwd
         self.env.pop("GUNICORN_CMD_ARGS", None)
         if env:
             self.env.update(env)
         self.proc = None
         self.t0 = None
         self.probe = "/pid"                 # what start() asks for until the server answers
+
+    def _mkrelease(self, n):
+        d = os.path.join(self.dir, "releases", str(n))
+        os.makedirs(d)
+        shutil.copy(os.path.join(APPDIR, "vapp.py"), d)
+        return d
+
+    def switch_release(self):
+        """deploy the next release: repoint the symlink atomically, remove the previous release directory"""
+        old = os.path.join(self.dir, "releases", str(self.release))
+        self.release += 1
+        new = self._mkrelease(self.release)
+        os.symlink(new, self.cwd + ".new")
+        os.rename(self.cwd + ".new", self.cwd)
+        shutil.rmtree(old, ignore_errors=True)
 
     def rewrite_config(self, text):
         with open(self.cfgfile, "w") as f:
@@ -153,7 +180,7 @@ class Server:
 
     def start(self, timeout=15):
         self.t0 = time.time()
-        self.proc = subprocess.Popen(self.cmd, cwd=REPO, env=self.env, stdout=subprocess.DEVNULL,
+        self.proc = subprocess.Popen(self.cmd, cwd=self.cwd, env=self.env, stdout=subprocess.DEVNULL,
                                      stderr=subprocess.DEVNULL)
         deadline = time.time() + timeout
         if self.daemon:
